@@ -537,3 +537,75 @@ Proof.
         -- intros v Hin. apply in_app_or in Hin. destruct Hin as [Hin|[<-|[]]]; [specialize (V v Hin); lia|lia].
         -- rewrite cns_index_snoc, E, L. lia.
 Qed.
+
+(* ================================================================== G. the largest table entry (unimodality) *)
+Lemma binom_ratio n : forall j, (Z.of_nat j + 1) * binom n (S j) = (Z.of_nat n - Z.of_nat j) * binom n j.
+Proof.
+  induction n as [|n IH]; intros j.
+  - destruct j; cbn [binom]; lia.
+  - destruct j as [|j].
+    + rewrite binom_1, binom_0. lia.
+    + pose proof (IH j) as H1. pose proof (IH (S j)) as H2.
+      change (binom (S n) (S (S j))) with (binom n (S j) + binom n (S (S j))).
+      change (binom (S n) (S j)) with (binom n j + binom n (S j)).
+      rewrite !Nat2Z.inj_succ in *. nia.
+Qed.
+Lemma binom_up n j : (2 * j + 1 <= n)%nat -> binom n j <= binom n (S j).
+Proof. intros H. pose proof (binom_ratio n j). pose proof (binom_nonneg n j). pose proof (binom_nonneg n (S j)). nia. Qed.
+Lemma binom_down n j : (n <= 2 * j + 1)%nat -> binom n (S j) <= binom n j.
+Proof. intros H. pose proof (binom_ratio n j). pose proof (binom_nonneg n j). pose proof (binom_nonneg n (S j)). nia. Qed.
+Lemma binom_up_le n j j' : (j <= j')%nat -> (2 * j' <= n)%nat -> binom n j <= binom n j'.
+Proof.
+  induction 1 as [|m Hm IH]; intros H; [lia|].
+  pose proof (binom_up n m ltac:(lia)). specialize (IH ltac:(lia)). lia.
+Qed.
+Lemma binom_down_le n j j' : (j <= j')%nat -> (n <= 2 * j + 1)%nat -> binom n j' <= binom n j.
+Proof.
+  induction 1 as [|m Hm IH]; intros H; [lia|].
+  pose proof (binom_down n m ltac:(lia)). specialize (IH ltac:(lia)). lia.
+Qed.
+(* the entry the constructor looks at, C(n, min(n/2, k)), is the largest of the columns 0..k of row n *)
+Theorem binom_max_entry n k j : (j <= k)%nat -> binom n j <= binom n (Nat.min (n / 2) k).
+Proof.
+  intros Hj. pose proof (Nat.div_mod n 2 ltac:(lia)) as Hd. pose proof (Nat.mod_upper_bound n 2 ltac:(lia)) as Hm.
+  destruct (le_lt_dec (n / 2) k) as [H|H].
+  - rewrite Nat.min_l by exact H. destruct (le_lt_dec j (n / 2)).
+    + apply binom_up_le; lia.
+    + apply binom_down_le; lia.
+  - rewrite Nat.min_r by lia. apply binom_up_le; lia.
+Qed.
+
+(* the guard of the Cns constructor / Rips_filtration constructor (num_extra_bits >= coefficient bits) is enough for every
+   simplex with at most k vertices *)
+Theorem cns_dispatch_no_overflow n k modulus vs coeff :
+  2 <= modulus -> 0 <= n -> 0 <= k -> vs <> [] -> increasing 0 vs -> (forall v, In v vs -> v < n) ->
+  1 <= coeff <= modulus - 1 -> Z.of_nat (length vs) <= k ->
+  let cb := log2up (modulus - 1) in
+  cb <= extra_bits C128 n k ->
+  let idx := simplex_index Cns vs in
+  let content := pack cb idx coeff in
+  0 <= content < 2 ^ 128 /\ unpack_index cb content = idx /\ unpack_coeff cb content = coeff /\
+  decode Cns (unpack_index cb content) (length vs) n = vs.
+Proof.
+  intros Hm Hn Hk Hne Hinc Hv Hco Hlen. cbv zeta. intros Hextra.
+  apply cns_no_overflow; try assumption.
+  - cbn [extra_bits] in Hextra. rewrite binom_tab_eq in Hextra.
+    pose proof (log2up_nonneg (modulus - 1)).
+    set (B := binom (Z.to_nat n) (Z.to_nat (Z.min (Z.shiftr n 1) k))) in *.
+    assert (HB : 0 <= B) by apply binom_nonneg.
+    pose proof (log2up_spec (B + 1) B ltac:(lia)) as HlB.
+    assert (Hpow : 2 ^ log2up (B + 1) <= 2 ^ (128 - log2up (modulus - 1))) by (apply Z.pow_le_mono_r; lia).
+    assert (Hmi : Z.to_nat (Z.min (Z.shiftr n 1) k) = Nat.min (Z.to_nat n / 2) (Z.to_nat k)).
+    { rewrite Z.shiftr_div_pow2 by lia. change (2 ^ 1) with 2. rewrite Z2Nat.inj_min. rewrite Z2Nat.inj_div by lia. reflexivity. }
+    pose proof (binom_max_entry (Z.to_nat n) (Z.to_nat k) (length vs) ltac:(lia)) as Hmax.
+    unfold B in *. rewrite Hmi in *. lia.
+  - cbn [extra_bits] in Hextra. pose proof (log2up_nonneg (binom_tab (Z.to_nat n) (Z.to_nat (Z.min (Z.shiftr n 1) k)) + 1)). lia.
+Qed.
+
+(* if the inspected entry of the last row fits, every entry of the table (rows 0..n, columns 0..k) fits: no addition wraps *)
+Theorem binom_table_bounded n k W : binom n (Nat.min (n / 2) k) < W ->
+  forall i j, (i <= n)%nat -> (j <= k)%nat -> 0 <= binom i j < W.
+Proof.
+  intros H i j Hi Hj. pose proof (binom_nonneg i j). pose proof (binom_mono i n j Hi).
+  pose proof (binom_max_entry n k j Hj). lia.
+Qed.
